@@ -20,8 +20,8 @@ PROPS = {
               "invariants I1-I5 are checked. evaluations = model-checked API calls; a case is non-trivial/distinct by its signature "
               "(table class, load decile, tombstones present, log2 buckets, at-full-load) x operation kind, counted as a set across shards"),
         lanes=dict(
-            quick=lanes(("dbg", 10, 20000), ("generic", 6, 20000)),
-            thorough=lanes(("dbg", 16, 240000), ("generic", 16, 240000), ("asan", 8, 120000), ("miri", 8, 180000)),
+            quick=lanes(("dbg", 7, 20000), ("generic", 5, 20000), ("rel", 4, 20000)),
+            thorough=lanes(("dbg", 16, 240000), ("generic", 16, 240000), ("rel", 8, 240000), ("asan", 8, 120000), ("miri", 8, 180000)),
         ),
         require=["rehash_in_place", "resize_grow", "steps_with_tombstones", "class_lt_group", "class_eq_group", "class_gt_group", "steps_at_full_load"],
         assumptions=COMMON_ASSUME,
@@ -48,8 +48,8 @@ PROPS = {
               "assigned by 13 plans (arbitrary position/tag collisions, duplicates of identical elements); compared step-for-step with a multiset model, "
               "plus find() of every stored element and I1-I5 after every call. distinct = table-state signature x operation kind"),
         lanes=dict(
-            quick=lanes(("dbg", 10, 15000), ("generic", 6, 15000)),
-            thorough=lanes(("dbg", 16, 180000), ("generic", 16, 180000), ("asan", 8, 120000), ("miri", 8, 120000)),
+            quick=lanes(("dbg", 7, 15000), ("generic", 5, 15000), ("rel", 4, 15000)),
+            thorough=lanes(("dbg", 16, 180000), ("generic", 16, 180000), ("rel", 8, 180000), ("asan", 8, 120000), ("miri", 8, 120000)),
         ),
         require=["rehash_in_place", "resize_grow", "steps_with_tombstones", "steps_with_duplicates", "class_lt_group", "class_gt_group"],
         assumptions=COMMON_ASSUME,
@@ -65,8 +65,8 @@ PROPS = {
               "element pairs with and without drop glue. evaluations = fault points in which the fuse fired; distinct = (operation kind, callback class, path "
               "[plain/alloc/resize/rehash_in_place], drop-glue or not, recipe) cells in which a fuse fired, as a set"),
         lanes=dict(
-            quick=lanes(("dbg", 8, 20000), ("generic", 4, 20000), ("asan", 4, 20000)),
-            thorough=lanes(("dbg", 16, 240000), ("generic", 16, 240000), ("asan", 16, 240000), ("miri", 16, 300000)),
+            quick=lanes(("dbg", 6, 20000), ("generic", 4, 20000), ("rel", 2, 20000), ("asan", 4, 20000)),
+            thorough=lanes(("dbg", 16, 240000), ("generic", 16, 240000), ("rel", 8, 240000), ("asan", 16, 240000), ("miri", 16, 300000)),
         ),
         require=["fired_hash", "fired_build_hasher", "fired_eq", "fired_clone", "fired_drop", "fired_closure", "fired_into", "fired_iter_next",
                  "fired_path_rehash_in_place", "fired_path_resize", "fired_no_drop_glue", "grow_hash_panic_contents_checked"],
@@ -82,8 +82,8 @@ PROPS = {
               "capacity()>=max(len,min(m,previous capacity)), free everything when empty and m=0, and end no larger than a fresh with_capacity(max(len,m)); "
               "clear/drain keep the block. evaluations = inequality groups evaluated; distinct = (collection, recipe, check kind, table class) as a set"),
         lanes=dict(
-            quick=lanes(("dbg", 10, 12000), ("generic", 6, 12000)),
-            thorough=lanes(("dbg", 16, 120000), ("generic", 16, 120000)),
+            quick=lanes(("dbg", 7, 12000), ("generic", 5, 12000), ("rel", 4, 12000)),
+            thorough=lanes(("dbg", 16, 120000), ("generic", 16, 120000), ("rel", 8, 120000)),
         ),
         require=["room_fills", "states_with_tombstones", "recipe_Saturated", "recipe_Fresh", "recipe_Full"],
         assumptions=COMMON_ASSUME,
@@ -98,7 +98,7 @@ PROPS = {
               "block for a never-used collection. evaluations = exits executed and settled; distinct = (exit, table class, tombstones, cut class, element layout)"),
         lanes=dict(
             quick=lanes(("dbg", 8, 12000), ("generic", 4, 12000), ("asan", 4, 12000)),
-            thorough=lanes(("dbg", 16, 120000), ("generic", 16, 120000), ("asan", 16, 120000), ("miri", 16, 240000)),
+            thorough=lanes(("dbg", 16, 120000), ("generic", 16, 120000), ("rel", 8, 120000), ("asan", 16, 120000), ("miri", 16, 240000)),
         ),
         assumptions=COMMON_ASSUME,
     ),
@@ -110,8 +110,8 @@ PROPS = {
               "independently; size_hint()==(r,Some(r)) and len()==r are checked at every step and the yielded multiset is compared with the contents; default-"
               "constructed iterators must be empty. evaluations = iterator runs; distinct = (iterator kind, mode, table class, tombstones, prefix class, element)"),
         lanes=dict(
-            quick=lanes(("dbg", 10, 12000), ("generic", 6, 12000)),
-            thorough=lanes(("dbg", 16, 120000), ("generic", 16, 120000), ("miri", 8, 180000)),
+            quick=lanes(("dbg", 7, 12000), ("generic", 5, 12000), ("rel", 4, 12000)),
+            thorough=lanes(("dbg", 16, 120000), ("generic", 16, 120000), ("rel", 8, 120000), ("miri", 8, 180000)),
         ),
         assumptions=COMMON_ASSUME,
     ),
@@ -123,8 +123,8 @@ PROPS = {
               "visited-and-true, unvisited elements stay, drain leaves an empty usable collection with its block. evaluations = operation runs checked; distinct = "
               "(collection, operation, cut class, table class, tombstones, subset class)"),
         lanes=dict(
-            quick=lanes(("dbg", 10, 12000), ("generic", 6, 12000)),
-            thorough=lanes(("dbg", 16, 120000), ("generic", 16, 120000), ("asan", 8, 60000)),
+            quick=lanes(("dbg", 7, 12000), ("generic", 5, 12000), ("rel", 4, 12000)),
+            thorough=lanes(("dbg", 16, 120000), ("generic", 16, 120000), ("rel", 8, 120000), ("asan", 8, 60000)),
         ),
         assumptions=COMMON_ASSUME,
     ),
@@ -136,8 +136,8 @@ PROPS = {
               "collections holding the same pairs built by different histories, capacities and differently seeded hashers, and != after one value changes. "
               "evaluations = pairs checked; distinct = (case, clone_from path [source unallocated / same buckets / different buckets], target class, tombstones, size order)"),
         lanes=dict(
-            quick=lanes(("dbg", 10, 12000), ("generic", 6, 12000)),
-            thorough=lanes(("dbg", 16, 120000), ("generic", 16, 120000), ("miri", 8, 180000)),
+            quick=lanes(("dbg", 7, 12000), ("generic", 5, 12000), ("rel", 4, 12000)),
+            thorough=lanes(("dbg", 16, 120000), ("generic", 16, 120000), ("rel", 8, 120000), ("miri", 8, 180000)),
         ),
         require=["clone_from_source_unallocated", "clone_from_same_buckets", "clone_from_different_buckets", "eq_same_contents_checked"],
         assumptions=COMMON_ASSUME,
@@ -151,8 +151,8 @@ PROPS = {
               "get_or_insert_with lawful and non-equivalent, contains/get, entry) against a set model that tracks which instance is stored. evaluations = pairs and "
               "point operations checked; distinct = (|A| vs |B| order, subset/superset/disjoint/empty flags, element type, universe) and (operation, presence)"),
         lanes=dict(
-            quick=lanes(("dbg", 10, 12000), ("generic", 6, 12000)),
-            thorough=lanes(("dbg", 16, 120000), ("generic", 16, 120000)),
+            quick=lanes(("dbg", 7, 12000), ("generic", 5, 12000), ("rel", 4, 12000)),
+            thorough=lanes(("dbg", 16, 120000), ("generic", 16, 120000), ("rel", 8, 120000)),
         ),
         require=["A_smaller", "A_larger", "same_size", "refusals_checked"],
         assumptions=COMMON_ASSUME,
@@ -167,8 +167,8 @@ PROPS = {
               "contents, len(), capacity(), the live block (ptr,size,align) and the element registry are unchanged. evaluations = (state, additional, refusal) cases; "
               "distinct = (collection, recipe, refusal, outcome, magnitude class of additional, table class)"),
         lanes=dict(
-            quick=lanes(("dbg", 10, 15000), ("generic", 6, 15000)),
-            thorough=lanes(("dbg", 16, 180000), ("generic", 16, 180000), ("asan", 8, 60000)),
+            quick=lanes(("dbg", 7, 15000), ("generic", 5, 15000), ("rel", 4, 15000)),
+            thorough=lanes(("dbg", 16, 180000), ("generic", 16, 180000), ("rel", 8, 180000), ("asan", 8, 60000)),
         ),
         require=["refused_request_reported", "capacity_overflow_reported", "oversize_request_refused_by_cap"],
         assumptions=COMMON_ASSUME + ["requests above 1 MiB are recorded and refused by the checking allocator, never backed by memory"],
@@ -181,8 +181,8 @@ PROPS = {
               "over-promised), the bucket count is compared with 8x capacity_to_buckets(n), and a lookup of an absent key must make <= buckets+16 equality calls "
               "(logical-step bound for termination; hashbrown's probe-length debug assertion is live). evaluations = churn steps; distinct = (collection, n, pattern, plan)"),
         lanes=dict(
-            quick=lanes(("dbg", 10, 15000), ("generic", 6, 15000)),
-            thorough=lanes(("dbg", 16, 240000), ("generic", 16, 240000)),
+            quick=lanes(("dbg", 7, 15000), ("generic", 5, 15000), ("rel", 4, 15000)),
+            thorough=lanes(("dbg", 16, 240000), ("generic", 16, 240000), ("rel", 8, 240000)),
         ),
         require=["in_place_reclaims_observed", "samples_with_tombstones"],
         assumptions=COMMON_ASSUME + ["'eventually terminates' is restated as a bounded number of equality callbacks plus the structural precondition (an EMPTY control byte exists); a wall-clock watchdog firing is inconclusive"],
@@ -195,8 +195,8 @@ PROPS = {
               "each call compared with the association-list model (Occupied iff present, returned references/values, stored key instance) and followed by the full "
               "contents comparison and I1-I5. HashSet::entry is covered by the C07 point operations. evaluations = entry-style calls; distinct = state signature x operation"),
         lanes=dict(
-            quick=lanes(("dbg", 10, 12000), ("generic", 6, 12000)),
-            thorough=lanes(("dbg", 16, 120000), ("generic", 16, 120000), ("miri", 8, 180000)),
+            quick=lanes(("dbg", 7, 12000), ("generic", 5, 12000), ("rel", 4, 12000)),
+            thorough=lanes(("dbg", 16, 120000), ("generic", 16, 120000), ("rel", 8, 120000), ("miri", 8, 180000)),
         ),
         require=["chains_started_at_capacity_eq_len", "chains_started_tombstone_saturated", "chains_started_unallocated", "rehash_in_place"],
         assumptions=COMMON_ASSUME,
@@ -210,8 +210,8 @@ PROPS = {
               "sentinel values written through the references are found in exactly the requested entries (full model comparison). Miri's borrow tracker runs the same "
               "scenarios. evaluations = calls; distinct = (N, variant, duplicate, number present, element) and (N, sloppiness, element)"),
         lanes=dict(
-            quick=lanes(("dbg", 8, 10000), ("generic", 4, 10000), ("miri", 4, 15000)),
-            thorough=lanes(("dbg", 16, 120000), ("generic", 16, 120000), ("miri", 16, 240000)),
+            quick=lanes(("dbg", 6, 10000), ("generic", 3, 10000), ("rel", 3, 10000), ("miri", 4, 15000)),
+            thorough=lanes(("dbg", 16, 120000), ("generic", 16, 120000), ("rel", 8, 120000), ("miri", 16, 240000)),
         ),
         require=["duplicate_panics_observed", "calls_returned", "sloppy_calls_returned"],
         assumptions=COMMON_ASSUME,
@@ -226,7 +226,7 @@ PROPS = {
               "distinct (function, result class) cells: (log2 buckets, element-size class), (size, align, log2 buckets) layout cells, table sizes probed"),
         lanes=dict(
             quick=lanes(("dbg", 16, 60000), ("generic", 16, 60000)),
-            thorough=lanes(("dbg", 16, 600000), ("generic", 16, 600000)),
+            thorough=lanes(("dbg", 16, 600000), ("generic", 16, 600000), ("rel", 8, 600000)),
         ),
         coverage_extra=dict(exhaustive_subspaces=["thorough tier: capacity_to_buckets for every capacity in 1..2^32 (layout-independent for capacity >= 15; capacities < 15 x element sizes 0..=64)",
                                                   "probe sequence: every start position of every table size 2^0..2^16"]),
@@ -243,7 +243,7 @@ PROPS = {
               "evaluations = primitive evaluations + model-checked calls; distinct = (position, tag, background) cells and table-state x operation signatures"),
         lanes=dict(
             quick=lanes(("dbg", 8, 120000), ("generic", 8, 120000)),
-            thorough=lanes(("dbg", 16, 1200000), ("generic", 16, 1200000)),
+            thorough=lanes(("dbg", 16, 1200000), ("generic", 16, 1200000), ("rel", 8, 1200000)),
         ),
         cross_lane=True,
         assumptions=COMMON_ASSUME + ["NEON and LSX scanners cannot be executed on x86_64 and are not covered", "`--cfg miri` selects the portable scanner and has no other effect on hashbrown"],
@@ -258,7 +258,7 @@ PROPS = {
               "(lie probability, palette) cells"),
         lanes=dict(
             quick=lanes(("dbg", 6, 12000), ("generic", 4, 12000), ("asan", 4, 12000), ("miri", 2, 12000)),
-            thorough=lanes(("dbg", 16, 120000), ("generic", 16, 120000), ("asan", 16, 120000), ("miri", 16, 240000)),
+            thorough=lanes(("dbg", 16, 120000), ("generic", 16, 120000), ("rel", 8, 120000), ("asan", 16, 120000), ("miri", 16, 240000)),
         ),
         require=["rehash_in_place", "resize_grow", "steps_with_tombstones"],
         assumptions=COMMON_ASSUME + ["termination is restated as a bound on equality callbacks per lookup; a watchdog firing is inconclusive"],
@@ -275,7 +275,7 @@ PROPS = {
               "distinct = distinct observed partitions (multiset of leaf sizes) x iterator kind x pool size, distinct split-tree shapes"),
         lanes=dict(
             quick=lanes(("dbg", 6, 12000), ("generic", 4, 12000), ("tsan", 6, 12000)),
-            thorough=lanes(("dbg", 16, 120000), ("generic", 16, 120000), ("tsan", 16, 120000), ("miri", 8, 240000)),
+            thorough=lanes(("dbg", 16, 120000), ("generic", 16, 120000), ("rel", 8, 120000), ("tsan", 16, 120000), ("miri", 8, 240000)),
         ),
         require=["runs_with_real_splits", "runs_stopped_early", "tables_with_all_split_trees"],
         assumptions=COMMON_ASSUME + ["real schedules are sampled, not enumerated; the split-tree enumeration is exhaustive only for tables of <= 6 scan groups"],
@@ -290,7 +290,7 @@ PROPS = {
               "with_capacity(65536) for every claimed hint (an oversize request would be refused by the allocator and surface as an abort of the shard). "
               "evaluations = (de)serialisations checked; distinct = (case, hint, emptiness, element) cells"),
         lanes=dict(
-            quick=lanes(("dbg", 10, 10000), ("asan", 4, 10000)),
+            quick=lanes(("dbg", 8, 10000), ("rel", 2, 10000), ("asan", 4, 10000)),
             thorough=lanes(("dbg", 16, 120000), ("asan", 16, 120000), ("miri", 8, 180000)),
         ),
         require=["injected_errors_returned", "inputs_with_repeated_keys"],
